@@ -23,6 +23,7 @@ import json
 import os
 import subprocess
 import threading
+import uuid
 import time
 from concurrent.futures import ThreadPoolExecutor
 
@@ -33,7 +34,9 @@ COMPOUND = [
     "kg*m**2/s**2", "N*m", "kg*m/s**2", "g*cm**2/s**2", "dyne*cm", "W*s", "Pa*m**3", "V*A", "J/s", "C*V", "A*s",
     "m/s", "km/hr", "cm/s", "g/cm**3", "kg/m**3", "1/s", "m**2", "cm**(1/2)", "J/K", "erg/K", "N/m**2",
     "kg/(m*s**2)", "Msun/yr", "km/s/Mpc", "mile/hr", "ft*lbf", "T*m**2", "V*s", "ohm*A", "F*V", "H*A", "lm/m**2",
-    "rad/s", "degree/hr", "1/K", "mol/m**3", "percent*m", "eV/c**2" if False else "eV/K",
+    "rad/s", "degree/hr", "1/K", "mol/m**3", "percent*m", "eV/K",
+    # strings that carry a numeric coefficient, a bare number, and ratios that simplify to a bare number
+    "100*m", "3*km", "0.5*s", "1000*g", "2.54*cm", "1000", "0.001", "12*inch/ft", "km/m", "hr/s", "60*s/minute", "4.184*J/cal",
 ]
 CUSTOM = ["code_length", "code_mass", "code_time", "code_temp", "h", "code_mass/code_length**3", "code_length/code_time",
           "h*code_length", "kg", "km", "code_mass*code_length**2/code_time**2"]
@@ -61,7 +64,7 @@ def _tab_leaves(ck):
             if p in prefixes and (p + r["sym"]) not in syms:
                 leaves.append({"reg": 0, "s": p + r["sym"], "cls": "prefixed", "dkey": json.dumps(r["dim"])})
     for s in COMPOUND:
-        leaves.append({"reg": 0, "s": s, "cls": "compound", "dkey": None})
+        leaves.append({"reg": 0, "s": s, "cls": "compound", "dkey": None, "co": s[0].isdigit()})
     for s in CUSTOM:
         leaves.append({"reg": 3, "s": s, "cls": "custom", "dkey": None})
     return leaves, dc
@@ -71,9 +74,8 @@ _PMAP_LOCK = threading.Lock()
 
 
 def _pmap(ck, *a, **kw):
-    """ck.pmap numbers its scratch files with a counter: one replay at a time (TLC runs overlap with it)."""
-    with _PMAP_LOCK:
-        return ck.pmap(*a, **kw)
+    """(ck.pmap is thread-safe: the three replays run concurrently, each on a share of the cores)"""
+    return ck.pmap(*a, **kw)
 
 
 def _chunks(cases, obs, size):
@@ -93,7 +95,7 @@ def _chunks(cases, obs, size):
 def _tlc_trace(ck, part, mode, n, workers):
     """one TLC trace-validation run (called from worker threads); returns the parsed records."""
     cfg_name = f"Trace_C05_run_{workers}"
-    path = ck.write_json(f"obs_{mode}_{n}.json", part)
+    path = ck.write_json(f"obs_{mode}_{n}_{uuid.uuid4().hex[:8]}.json", part)  # several chunks are written concurrently
     res = ck.tlc("Trace_C05", cfg_name, env={"OBS": path}, workers=workers, coverage=False,
                  label=f"trace validation {mode} chunk {n} ({len(part)} observations)", timeout=2400)
     os.unlink(path)
@@ -281,15 +283,16 @@ def _tab_cases(ck, seed):
         else:
             uncovered.append({"leaf does not resolve": l["s"], "why": p["why"]})
     leaves = kept
-    tabpath = ck.write_json("tab.json", [{"dc": l["dc"]} for l in leaves])
+    tabpath = ck.write_json("tab.json", [{"dc": l["dc"], "co": bool(l.get("co", False))} for l in leaves])
     consts = ck.q(
-        {"Seed": seed, "PairN": 8, "TripleN": 3, "PowN": 3, "PowMulN": 3, "SimpN": 3, "RuleN": 5, "HistN": 0},
-        {"Seed": seed, "PairN": 0, "TripleN": 60, "PowN": 40, "PowMulN": 60, "SimpN": 40, "RuleN": 40, "HistN": 0},
+        {"Seed": seed, "PairN": 5, "TripleN": 3, "PowN": 3, "PowMulN": 3, "SimpN": 3, "RuleN": 4, "HistN": 0, "CoefN": 2, "EqN": 4},
+        {"Seed": seed, "PairN": 0, "TripleN": 60, "PowN": 40, "PowMulN": 60, "SimpN": 40, "RuleN": 40, "HistN": 0, "CoefN": 30, "EqN": 0},
     )
     res, tcases = _mc(ck, "TAB", consts, env={"TAB": tabpath}, label=f"TAB instance over {len(leaves)} table leaves {consts}: tuple enumeration")
     if len(tcases) < 500:
         raise MachineryFailure("TAB instance: too few cases")
-    return leaves, tcases, consts, uncovered
+    tobs = _pmap(ck, "impl_c05", "observe", tcases, nproc=max(2, NCPU // 2), common={"mode": "TAB", "tab": leaves})
+    return leaves, tcases, consts, uncovered, tobs
 
 
 def run(ck):
@@ -331,8 +334,8 @@ def run(ck):
         f_apalache = pool.submit(_apalache, ck) if ck.tier == "thorough" else None
         f_tab = pool.submit(_tab_cases, ck, seed)
         consts = ck.q(
-            {"Seed": seed, "PairN": 0, "TripleN": 20, "PowN": 30, "PowMulN": 30, "SimpN": 16, "RuleN": 0, "HistN": 10},
-            {"Seed": seed, "PairN": 0, "TripleN": 0, "PowN": 0, "PowMulN": 0, "SimpN": 400, "RuleN": 0, "HistN": 120},
+            {"Seed": seed, "PairN": 12, "TripleN": 14, "PowN": 16, "PowMulN": 16, "SimpN": 10, "RuleN": 10, "HistN": 8, "CoefN": 6, "EqN": 12},
+            {"Seed": seed, "PairN": 0, "TripleN": 0, "PowN": 0, "PowMulN": 0, "SimpN": 400, "RuleN": 0, "HistN": 120, "CoefN": 300, "EqN": 0},
         )
         res, cases = _mc(ck, "MR", consts, label=f"MR instance {consts}: model run + ModelHolds + export (cases and registry histories)")
         mr = res.by_tag("MR")
@@ -347,21 +350,21 @@ def run(ck):
         ck.sample({"registry_history": {k: hist[len(hist) // 2][k] for k in ("lv", "p", "edits")}})
         # histories first (they are the long poles of the replay), then the single-state cases
         plain = [c for c in cases if c["law"] != "state"]
-        hobs = _pmap(ck, "impl_c05", "observe", hist, common=common)
-        hc, ho = _flatten(hist, hobs)
+        f_hist = pool.submit(_pmap, ck, "impl_c05", "observe", hist, nproc=max(2, NCPU // 2), common=common)
+        f_plain = pool.submit(_pmap, ck, "impl_c05", "observe", plain, nproc=max(2, NCPU // 2), common=common)
+        hc, ho = _flatten(hist, f_hist.result())
         _submit_validation(ck, pool, hc, ho, "MR", common, jobs)
-        obs = _pmap(ck, "impl_c05", "observe", plain, common=common)
+        obs = f_plain.result()
         _submit_validation(ck, pool, plain, obs, "MR", common, jobs)
         ck.cov["mr_cases_by_law"] = _bylaw(cases)
         ck.cov["registry_histories"] = {"histories": len(hist), "phases": len(ho), "with_two_edits": sum(1 for c in hist if len(c["edits"]) == 2),
                                         "back_to_an_earlier_state": sum(1 for c in hist if _returns(c))}
         n_eval = len(plain) + len(ho)
 
-        leaves, tcases, tconsts, uncovered = f_tab.result()
+        leaves, tcases, tconsts, uncovered, tobs = f_tab.result()
         ck.cov["uncovered"] += uncovered
         tcommon = {"mode": "TAB", "tab": leaves}
         ck.sample({"tab_case": {"law": tcases[len(tcases) // 3]["law"], "leaves": [leaves[i - 1]["s"] for i in tcases[len(tcases) // 3]["lv"]]}})
-        tobs = _pmap(ck, "impl_c05", "observe", tcases, common=tcommon)
         _submit_validation(ck, pool, tcases, tobs, "TAB", tcommon, jobs)
         ck.cov["tab_cases_by_law"] = _bylaw(tcases)
         ck.cov["tab_leaves"] = {k: sum(1 for l in leaves if l["cls"] == k) for k in ("atom", "prefixed", "compound", "custom")}
